@@ -119,7 +119,6 @@ Representable(cfg) ==
   /\ Len(cfg.ver) = 2 /\ Len(cfg.sid) < 256 /\ Len(cfg.comp) < 256 /\ 2 * Len(cfg.suites) < 65536
   /\ cfg.rmode = "fixed" => Len(cfg.random) = 32
   /\ \A i \in 1..Len(cfg.exts) : ExtWellFormed(cfg.exts[i], cfg)
-  /\ DistinctKinds(cfg)
   /\ Len(ExtBlock(cfg)) < 65536
   /\ Len(HelloBody(cfg)) < 16777216
 
@@ -139,12 +138,18 @@ Core(cfg) ==
 
 Must(cfg) == IF ~Representable(cfg) THEN "refuse" ELSE IF Core(cfg) THEN "send" ELSE "either"
 
+(* The read-back clause applies where the configured hello is a ClientHello the RFC grammar
+   admits: no extension type twice (RFC 8446 4.2), at least one cipher suite and one
+   compression method (RFC 5246 7.4.1.2).  Outside that, only the bytes are demanded.       *)
+ReadBackOK(cfg) == Representable(cfg) /\ DistinctKinds(cfg) /\ Len(cfg.suites) >= 1 /\ Len(cfg.comp) >= 1
+
 CaseOf(cfg) ==
   [cfg |-> cfg, must |-> Must(cfg),
    hello |-> IF Representable(cfg) THEN HelloOf(cfg) ELSE <<>>,
-   expect |-> IF Representable(cfg) THEN ExpectCH(cfg) ELSE NoV]
+   readback |-> ReadBackOK(cfg),
+   expect |-> IF ReadBackOK(cfg) THEN ExpectCH(cfg) ELSE NoV]
 
 (* the specification's own obligation: the parser model reads the layout back *)
-ReadsBack(cfg) == Representable(cfg) =>
+ReadsBack(cfg) == ReadBackOK(cfg) =>
   Parse("clientHelloMsg", Zeroed(HelloOf(cfg))) = [ok |-> TRUE, v |-> ExpectCH(cfg)]
 =============================================================================
